@@ -1,4 +1,4 @@
-"""debug helper: python3-vt -m pyvc.debug <target> <substring-of-obligation-name> [n]"""
+"""debug helper: python3-vt -m pyvc.debug <target> <substring-of-obligation-name> [sat|unknown|N]"""
 import sys, time
 sys.path.insert(0, '/verif')
 from pyvc.run import load_contracts
@@ -11,13 +11,30 @@ def main():
     eng = E.Engine(ct, reg)
     obs = [o for o in eng.run() if sys.argv[2] in o.name]
     print(len(obs), "matching obligations")
-    n = int(sys.argv[3]) if len(sys.argv) > 3 else 0
-    o = obs[n]
+    want = sys.argv[3] if len(sys.argv) > 3 else "0"
+    pick = None
+    if want in ("sat", "unknown"):
+        for o in obs:
+            s = S._mk_solver(o, 10000)
+            r = s.check()
+            if str(r) == want:
+                pick = o
+                break
+        if pick is None:
+            print("none with verdict", want); return
+    else:
+        pick = obs[int(want)]
+    o = pick
     for t in o.pc:
         print("PC:", str(t).replace("\n", " ")[:400])
     print("GOAL:", str(o.goal).replace("\n", " ")[:3000])
     s = S._mk_solver(o, 30000)
     open("/tmp/ob.smt2", "w").write(s.to_smt2())
-    t0 = time.time(); print(s.check(), time.time() - t0)
+    t0 = time.time(); r = s.check(); print(r, time.time() - t0)
+    if r == z3.sat:
+        m = s.model()
+        for d in m.decls():
+            if d.arity() == 0:
+                print("  M:", d.name(), str(m[d])[:120])
 
 main()
